@@ -187,8 +187,8 @@ def run(chk, pid, tier, work):
     vjobs = [(events[i:i + size], work, f"{pid}_{i}") for i in range(0, len(events), size)]
     vres = common.pmap(_vjob, vjobs, procs=k)
     nacc = 0
-    for (chunk, _w, _t), (res, bad, ok, tail) in zip(vjobs, vres):
-        base = events.index(chunk[0]) if chunk else 0
+    for (chunk, _w, tag), (res, bad, ok, tail) in zip(vjobs, vres):
+        base = int(tag.rsplit("_", 1)[1])        # offset of the chunk in `events` (equal events exist: do not search for it)
         chk.cov["tlc_runs"].append({"module": "TraceMoves", "generated": res.get("states"), "distinct": res.get("distinct"),
                                     "wall_s": res.get("wall_s"), "events": len(chunk)})
         chk.cov["states"] += int(res.get("distinct") or 0)
